@@ -228,6 +228,26 @@ func c19OnlyMixedMarks(a, b []string, mixed map[int]bool) bool {
 	return true
 }
 
+// c19ForeignMarker: in a ledger rebuilt by adds only, some CPU of `among` carries an exclusive-policy
+// marker that is the policy of none of its surviving holders (a rebuilt marker is always written by a
+// holder, so this means a holder's policy was not read back).
+func c19ForeignMarker(dump []string, holders map[int]map[int]bool, among map[int]bool) bool {
+	for _, l := range dump {
+		if !strings.HasPrefix(l, "cpus ") {
+			continue
+		}
+		f := strings.Fields(l[5:])
+		for j := 0; j+3 <= len(f); j += 3 {
+			c, _ := strconv.Atoi(f[j])
+			e, _ := strconv.Atoi(f[j+2])
+			if among[c] && !holders[c][e] {
+				return true
+			}
+		}
+	}
+	return false
+}
+
 func c19Union(a, b map[int]bool) map[int]bool {
 	out := map[int]bool{}
 	for k := range a {
@@ -750,10 +770,23 @@ func TestVerifC19Numa(t *testing.T) {
 				}
 			}
 			// ---- oracle 2: rebuilt state identical to the live state
+			holders := map[int]map[int]bool{}
+			for _, u := range us {
+				o := objs[u]
+				if o.alloc == nil || o.term {
+					continue
+				}
+				for _, c := range o.alloc.cpus {
+					if holders[c] == nil {
+						holders[c] = map[int]bool{}
+					}
+					holders[c][o.alloc.excl] = true
+				}
+			}
 			if !c19SameLines(got, live) {
-				if c19OnlyMixedMarks(got, live, shadowCPUs) {
+				if c19OnlyMixedMarks(got, live, c19Union(mixedCPUs, shadowCPUs)) && c19ForeignMarker(got, holders, shadowCPUs) {
 					h.Fail("C19:numa-reservation-excl-shadowed", "rebuilt ledger differs from the live one only in the exclusive-policy marker of CPUs held by a Reservation whose resource spec sits on spec.template (PreBind wrote a spec without it onto the Reservation): live=%v rebuilt=%v", live, got)
-				} else if c19OnlyMixedMarks(got, live, c19Union(mixedCPUs, shadowCPUs)) {
+				} else if c19OnlyMixedMarks(got, live, mixedCPUs) {
 					h.Fail("C19:numa-excl-mark-last-writer", "rebuilt ledger differs from the live one only in the exclusive-policy marker of a CPU held by pods with different policies: live=%v rebuilt=%v", live, got)
 				} else {
 					h.Fail("C19:numa-rebuilt-differs", "live=%v rebuilt=%v", live, got)
@@ -763,7 +796,7 @@ func TestVerifC19Numa(t *testing.T) {
 			if round == 0 {
 				first = got
 			} else if !c19SameLines(got, first) {
-				if c19OnlyMixedMarks(got, first, c19Union(mixedCPUs, shadowCPUs)) {
+				if c19OnlyMixedMarks(got, first, mixedCPUs) {
 					h.Fail("C19:numa-excl-mark-last-writer", "two delivery orders differ only in the exclusive-policy marker of a shared CPU: %v vs %v", first, got)
 				} else {
 					h.Fail("C19:numa-order-dependent", "two delivery orders rebuild different ledgers: %v vs %v", first, got)
